@@ -260,7 +260,23 @@ func runSimCaseWith(t *rapid.T, o simOpts, setup func(*sim.World)) *sim.World {
 	// again, and that leader sends a NEW_VIEW from the preset catalogue, backed by Byzantine PREPAREs/COMMITs.
 	// Everything is applied as primitive actions, so the trace replays and shrinks like any other.
 	usedTemplate := false
-	if l := w.LeaderIdx(1, 0); w.IsByz(l) && rapid.IntRange(0, 9).Draw(t, "template?") < 4 {
+	if l := w.LeaderIdx(1, 0); w.IsByz(l) && rapid.IntRange(0, 9).Draw(t, "equivocate?") < 2 {
+		// equivocation template: the Byzantine leader of view 0 proposes A to some members and B to the others, the
+		// Byzantine members back one of the two (or both) with PREPAREs and COMMITs sent to everybody, the network runs.
+		usedTemplate = true
+		full := uint16(1<<uint(cfg.N) - 1)
+		m := uint16(rapid.IntRange(1, int(full)).Draw(t, "eq-mask"))
+		w.Apply(sim.Action{K: "byz", Byz: &sim.ByzSpec{Strat: "pp", As: l, To: m, H: 1, V: 0, P: []int{0, 0}}})
+		w.Apply(sim.Action{K: "byz", Byz: &sim.ByzSpec{Strat: "pp", As: l, To: full &^ m, H: 1, V: 0, P: []int{1, 0}}})
+		if rapid.Bool().Draw(t, "eq-run-first") {
+			w.Apply(sim.Action{K: "run", N: rapid.SampledFrom([]int{3, 10, 40}).Draw(t, "eq-run")})
+		}
+		for k := rapid.IntRange(1, 2).Draw(t, "eq-supports"); k > 0; k-- {
+			w.Apply(sim.Action{K: "byz", N: rapid.SampledFrom([]int{0, 20, 100}).Draw(t, "eq-then"), Byz: &sim.ByzSpec{Strat: "support", As: l,
+				To: uint16(rapid.IntRange(1, int(full)).Draw(t, "eq-support-to")), H: 1, V: 0, P: []int{rapid.IntRange(0, 1).Draw(t, "eq-which"), rapid.IntRange(0, 1).Draw(t, "eq-commits-only")}}})
+		}
+		w.Apply(sim.Action{K: "run", N: 100})
+	} else if l := w.LeaderIdx(1, 0); w.IsByz(l) && rapid.IntRange(0, 9).Draw(t, "template?") < 4 {
 		usedTemplate = true
 		full := uint16(1<<uint(cfg.N) - 1)
 		w.Apply(sim.Action{K: "byz", Byz: &sim.ByzSpec{Strat: "pp", As: l, To: full, H: 1, V: 0, P: []int{rapid.IntRange(0, 1).Draw(t, "tpl-block"), 0}}})
